@@ -17,7 +17,8 @@ RULE = (
     "stationary with O(1) entries times 10^e, e in [-12,15] (float32) / [-100,100] (float64). Scenarios: total "
     "(finite (n,) vector of the input dtype, input bitwise unchanged); reject (0-d/1-d/3-d tensors, NaN/+-inf at a "
     "drawn position, row count contradicting weights/pref/leak/minimum must raise ValueError; ConFIG exempt); "
-    "history (an instance that processed 1-3 other matrices returns bitwise what a fresh instance returns; "
+    "history (an instance that processed 1-3 other matrices - other shapes, and other dtypes where no configured vector "
+    "pins the dtype - returns bitwise what a fresh instance returns; "
     "randomised ones under equal torch.manual_seed); homogeneity A(tJ) ~ t A(J) for t = 2^k (all aggregators; exact "
     "scaling, so ties and rank decisions replicate) and t = 2^k mu (continuous aggregators; pinv/eigh based ones on "
     "full-row-rank matrices only), UPGrad/DualProj/CAGrad only while s and t s >= 2 norm_eps. Non-trivial = scale "
@@ -34,7 +35,7 @@ LEVEL_TEXT = (
 )
 LEVEL_NOTE = "Trusted: torch CPU kernels, the float64 margin/rank computations used to decide which relation applies."
 TECHNIQUE = "property-based testing (Hypothesis): validity + fault injection + history independence + metamorphic scaling"
-REQUIRED_CLASSES = {"total": 1, "reject": 1, "history": 1, "homog:pow2": 1, "homog:generic": 1, "scale:extreme": 1}
+REQUIRED_CLASSES = {"history:other-dtype": 1, "total": 1, "reject": 1, "history": 1, "homog:pow2": 1, "homog:generic": 1, "scale:extreme": 1}
 
 K = 50.0
 NAMES = list(aggs.ALL)
@@ -136,7 +137,13 @@ def _case(draw):
             hm = m if needs_same_m else draw(st.integers(aggs.min_rows(spec), 8))
             hn = draw(st.integers(1, 10))
             H, _ = _matrix(draw, hm, hn, dtype, rng)
-            hist.append((H * 10.0 ** draw(st.integers(-3, 3))).tolist())
+            # earlier calls may have used another dtype (allowed whenever no configured vector pins the dtype; UPGrad and
+            # DualProj accept it even with a preference vector because the projection weights are cast to the Gramian's dtype)
+            configured = any(k in spec for k in ("pref", "weights", "leak"))
+            hd = dtype
+            if (not configured or name in ("UPGrad", "DualProj")) and draw(st.sampled_from([True, False])):
+                hd = "float32" if dtype == "float64" else "float64"
+            hist.append({"J": (H * 10.0 ** draw(st.integers(-3, 3))).tolist(), "dtype": hd})
         case["history"] = hist
     if scenario == "homog":
         k = draw(st.integers(-20, 20)) if dtype == "float32" else draw(st.integers(-60, 60))
@@ -232,7 +239,9 @@ def run_case(case) -> Outcome:
     if sc == "history":
         B = aggs.make(spec, dtype)
         for H in case["history"]:
-            h = out.call(f"raises-in-history:{name}", _call, B, torch.tensor(H, dtype=tdt), case["seed"] + 1)
+            if H["dtype"] != dtype:
+                out.cls("history:other-dtype")
+            h = out.call(f"raises-in-history:{name}", _call, B, torch.tensor(H["J"], dtype=getattr(torch, H["dtype"])), case["seed"] + 1)
             if h is RAISED:
                 return out
         r2 = out.call(f"raises:{name}", _call, B, Jt, case["seed"])
